@@ -36,6 +36,10 @@ def models(torch, rng, n):
         ("dict_of_tuples", {"pair": ({"x": w}, [b]), "n": (1, 2, 3)}),
         ("set_and_frozenset", {"s": {1, 2}, "f": frozenset({3}), "t": w}),
         ("ordered_dict_root", __import__("collections").OrderedDict([("z", w), ("a", [b])])),
+        # storage bytes that look like text / markers: CR LF pairs, NUL, 0xff, ^Z, zip and pickle magic
+        ("texty_storage_bytes", {"crlf": torch.tensor([13, 10, 13, 10, 0, 255, 26, 13, 10, 9, 32], dtype=torch.uint8),
+                                 "i16": torch.tensor([2573, 0x0A0D, 0x4B50, 0x0403], dtype=torch.int16),
+                                 "magic": torch.tensor(list(b"PK\x03\x04\x80\x02." + b"\r\n" * 8), dtype=torch.uint8)}),
     ]
     for lab, obj in base:
         yield lab, obj
